@@ -51,6 +51,11 @@ def func(p0, /, p1: int, p2: "str" = {e1}, *args: typing.Any, k1, k2: bool = Tru
     Returns:
         Something.
     """
+@deco(
+    1,
+    key="spread over several lines",
+)
+def multiline_decorated(): ...
 @overload
 def over(a: int) -> int: ...
 @overload
